@@ -14,9 +14,16 @@
 (*           formatting id f (0 = none) and run index r; any other k is a  *)
 (*           non-text run child (br, drawing, fldChar, instrText ...)      *)
 (*   nv    = [n: element name, v: canonical content]                       *)
-(*   data  = [cls, vars: Seq([n: Seq(tok), v: Seq(tok)]),                  *)
-(*            lists: Seq([n, items: Seq(Seq([n, v]))]),                    *)
+(*   data  = [cls, vars: Seq([n: Seq(tok), v: Seq(tok), ty]),              *)
+(*            lists: Seq([n, items: Seq(Seq([n, v, ty]))]),                *)
 (*            imgs: Seq([n, img: image token])]                            *)
+(*           v is the TEXT the value stands for; ty says as what the value *)
+(*           is handed over ("str", "nil", "int", "bool", "float") - the   *)
+(*           semantics only uses v                                         *)
+(*   parts = every other part of the package, one [n: name, c: class,      *)
+(*           v: digest] each; pictures the base document already carries   *)
+(*           are parts of class "media" (and drawing atoms whose token     *)
+(*           names the bytes the relationship resolves to)                 *)
 (*                                                                         *)
 (* Operations of the subsystem:                                            *)
 (*   Build(base, via)        - a base document exists / is loaded as a     *)
@@ -199,7 +206,12 @@ DiffPara(e, g, ctx, cls) ==
                ELSE {<<"not-replaced", ctx, Sp(q)>> : q \in stay}
                     \cup {<<"placeholder-vanished", ctx, Sp(q)>> : q \in gone}
                     \cup (IF stay = {} /\ gone = {} THEN {<<"text-changed", ctx, cls>>} ELSE {})
+      \* same non-text children in the same order, but one the base already had shows other content
+      \* (e.g. a picture of the base that now resolves to other bytes)
+      sameKinds == Len(eX) = Len(gX) /\ \A i \in 1..Len(eX) : eX[i][1] = gX[i][1]
+      chgX == IF sameKinds THEN {i \in 1..Len(eX) : eX[i] # gX[i] /\ ~NonText(ea)[i].img} ELSE {}
       objW  == IF eX = gX THEN {}
+               ELSE IF chgX # {} THEN {<<"nontext-content-changed", eX[i][1], ctx, pc>> : i \in chgX}
                ELSE {IF NonText(ea)[i].img THEN <<"image-missing", ctx>> ELSE <<"nontext-run-dropped", eX[i][1], ctx, pc>> : i \in lostX}
                     \cup (IF lostX = {} THEN {<<"nontext-changed", ctx>>} ELSE {})
       moveW == IF eT = gT /\ eX = gX /\ KT(ea) # KT(ga) THEN {<<"nontext-moved", ctx>>} ELSE {}
